@@ -20,6 +20,9 @@ RULE = ('enumeration of (length, start, end, size, orphan, overlap, how the '
         'sub-range, or the orphan rule / an explicit end beyond the length / '
         'an overlap changes the result), or a walk with >=2 windows.  '
         'Enumerated tuples are distinct by construction.')
+RULE += (
+         'Walks over tuples / own sequence classes and with the '
+         'template re-entered from the body. ')
 ASSUMPTIONS = [
     'parameters <= 0 mean "not given" (the statement requires 1 <= start)',
     'when size < 1 the statement fixes no size: the reported '
